@@ -118,6 +118,8 @@ pub fn c18_mode() -> Option<String> {
     std::env::var("VERIF_C18").ok().filter(|s| !s.is_empty())
 }
 
+const PRECOND_SUFFIX: &str = " (precondition-failure)";
+
 pub fn is_precondition_failure(what: &str) -> bool {
     what.contains("assertion failed") || what.contains("unsafe precondition") || what.contains("invalid UTF-8") || what.contains("is_char_boundary")
 }
@@ -201,6 +203,9 @@ impl Check {
     }
     pub fn violation(&self, signature: String, what: String, case: Value) {
         self.viol_total.fetch_add(1, Ordering::Relaxed);
+        // in C18 mode precondition failures must not be merged (and then filtered away) with
+        // functional violations that happen to share a signature
+        let signature = if c18_mode().is_some() && is_precondition_failure(&what) { format!("{signature}{PRECOND_SUFFIX}") } else { signature };
         let class: String = signature.split_whitespace().take(4).collect::<Vec<_>>().join(" ");
         let mut v = self.viols.lock().unwrap();
         if let Some(e) = v.get_mut(&signature) {
@@ -296,7 +301,7 @@ impl Check {
             // confirm by replay before printing
             let case = json!({"property": self.id, "reported_as": report_id, "profile": c18.clone().unwrap_or_else(|| "release".into()), "signature": sig, "what": v.what, "case": v.case});
             match guard(|| replay(&v.case)) {
-                Ok(Some((s2, _))) if &s2 == sig => {}
+                Ok(Some((s2, _))) if &s2 == sig || format!("{s2}{PRECOND_SUFFIX}") == *sig => {}
                 Ok(other) => machinery_error(&format!(
                     "replay of violation [{sig}] diverged: got {:?}",
                     other.map(|x| x.0)
